@@ -139,7 +139,7 @@ def main():
         env = extract_lib()
         changed = write_if_changed(os.path.join(OUT, "Consts.lean"), lean_consts(env))
         extra = {}
-        for modname in ("extract_more", "extract_str", "extract_box", "rs2lean", "rs2lean_box", "rs2lean_lossy", "rs2lean_str", "rs2lean_chunks", "rs2lean_typed", "rs2lean_splice", "rs2lean_slices", "rs2lean_splicedrop", "rs2lean_strfwd"):
+        for modname in ("extract_more", "extract_str", "extract_box", "rs2lean", "rs2lean_box", "rs2lean_lossy", "rs2lean_str", "rs2lean_chunks", "rs2lean_typed", "rs2lean_splice", "rs2lean_slices", "rs2lean_splicedrop", "rs2lean_strfwd", "rs2lean_fwd"):
             try:
                 mod = __import__(modname)
             except ImportError:
